@@ -217,7 +217,7 @@ impl Machine for M<$G, $Ix> {
         format!("Acyclic<{}<{}>>-{}nodes-{}edges", <$G as Inner<$Ix>>::NAME, self.ixname, self.max_nodes, self.max_edges)
     }
     fn bounds(&self) -> String {
-        format!("at most {} live nodes, {} edges, node ids below {}; arguments: every live pair, every edge id and node id up to one beyond the bound (absent / already removed); initial states: new(), try_from_graph of every acyclic digraph on <= {} nodes and TryFrom of the same digraphs stored behind two removed low-index nodes (StableDiGraph: node_bound > node_count)", self.max_nodes, self.max_edges, self.max_ids, if self.with_graph_inits { 3 } else { 0 })
+        format!("at most {} live nodes, {} edges, node ids below {}; arguments: every live pair, every edge id and node id up to one beyond the bound (absent / already removed); initial states: new(), try_from_graph of every acyclic digraph on <= {} nodes and TryFrom of those among them that fit, stored behind two removed low-index nodes (StableDiGraph: node_bound > node_count)", self.max_nodes, self.max_edges, self.max_ids, if self.with_graph_inits { 3 } else { 0 })
     }
     fn inits(&self) -> Vec<St<$G>> {
         let mut v = vec![St { a: <$G as Inner<$Ix>>::acy_new() }];
@@ -229,7 +229,11 @@ impl Machine for M<$G, $Ix> {
                     if let Ok(a) = <$G as Inner<$Ix>>::try_from_graph(<$G as Inner<$Ix>>::from_edges(n, &e)) {
                         v.push(St { a });
                     }
-                    // the TryFrom route, from a graph with vacancies below its live nodes
+                    // the TryFrom route, from a graph with vacancies below its live nodes (only where the two extra
+                    // slots stay inside the universe's id range, so that the universe keeps its size)
+                    if n + 2 > self.max_ids {
+                        continue;
+                    }
                     if let Ok(a) = <$G as Inner<$Ix>>::try_from_trait(<$G as Inner<$Ix>>::from_edges_holes(n, &e)) {
                         v.push(St { a });
                     }
